@@ -432,6 +432,7 @@ func cmdCheck(args []string) int {
 		}
 	}
 	consequences := 0
+	skipped := 0
 	replays := 0
 	// one obligation that fails on several paths is ONE violation: its representative is the first path for which a solver
 	// produced a model (otherwise the first path); the other paths are still listed as FAILED-OBLIGATION lines
@@ -443,7 +444,7 @@ func cmdCheck(args []string) int {
 	}
 	repr := map[string]*Obligation{}
 	for _, o := range obls {
-		if o.Status == "discharged" {
+		if o.Status == "discharged" || o.Detail == notAttempted {
 			continue
 		}
 		g := groupOf(o.ID)
@@ -483,6 +484,10 @@ func cmdCheck(args []string) int {
 		}
 		if o.Kind == "vacuity" && otherFailure[o.Func] {
 			consequences++
+			continue
+		}
+		if o.Detail == notAttempted {
+			skipped++
 			continue
 		}
 		fmt.Printf("FAILED-OBLIGATION %s [%s] %s :: %s %s\n", o.ID, o.Solver, o.Where, o.Spec, o.Detail)
@@ -593,6 +598,13 @@ func cmdCheck(args []string) int {
 	fmt.Printf("property %s: %d obligations, %d discharged, %d functions, %.1fs (generation %.1fs, %d quick side queries, %d cache hits)\n", *prop, len(obls), discharged, len(funcs), time.Since(t0).Seconds(), genSecs, e.quickQueries, bySolver["cache"])
 	for _, v := range violations {
 		fmt.Println(v)
+	}
+	if skipped > 0 && len(violations) == 0 {
+		violations = append(violations, fmt.Sprintf("VIOLATION property=%s replay=none no-failing-input-found", *prop))
+		fmt.Println(violations[0])
+	}
+	if skipped > 0 {
+		fmt.Printf("(%d further undecided obligations were not attempted: fail-fast, the check had already failed)\n", skipped)
 	}
 	if consequences > 0 {
 		fmt.Printf("(%d vacuity guards failed as a consequence of the failed obligations above: the failed assertion is assumed on the rest of its path)\n", consequences)
